@@ -18,6 +18,9 @@ type session struct {
 	serverNonce       []byte
 	remoteCertificate []byte
 
+	// activated is set once ActivateSession succeeded; protected by sessionBroker.mu
+	activated bool
+
 	PublishRequests chan PubReq
 }
 
@@ -67,6 +70,28 @@ func (sb *sessionBroker) Close(authToken *ua.NodeID) error {
 	delete(sb.s, authToken.String())
 
 	return nil
+}
+
+// Activate marks the session as activated.
+func (sb *sessionBroker) Activate(s *session) {
+	sb.mu.Lock()
+	defer sb.mu.Unlock()
+	s.activated = true
+}
+
+// Activated returns the session for the authentication token and whether it
+// has been activated. The session is nil if the token is unknown.
+func (sb *sessionBroker) Activated(authToken *ua.NodeID) (*session, bool) {
+	if authToken == nil {
+		return nil, false
+	}
+	sb.mu.Lock()
+	defer sb.mu.Unlock()
+	s := sb.s[authToken.String()]
+	if s == nil {
+		return nil, false
+	}
+	return s, s.activated
 }
 
 func (sb *sessionBroker) Session(authToken *ua.NodeID) *session {
